@@ -83,6 +83,8 @@ pub trait PF: Copy + Send + Sync + 'static {
     fn select(a: &Self, b: &Self, ctl: u32) -> Self;
     fn cswap(a: &mut Self, b: &mut Self, ctl: u32);
     fn encode(a: Self) -> Vec<u8>;
+    /// plain library encoding without any harness-side comparison (used on tainted values by the C02 driver)
+    fn encode_ct(a: Self) -> Vec<u8>;
     /// form 0: decode_ct, 1: set_decode_ct on a pre-filled element
     fn decode_ct(b: &[u8], form: u8) -> (Self, u32);
     fn decode(b: &[u8]) -> Option<Self>;
@@ -252,6 +254,7 @@ macro_rules! impl_pf_gf255 {
                 assert!(e == e32, "encode != encode32");
                 e.to_vec()
             }
+            fn encode_ct(a: Self) -> Vec<u8> { a.encode().to_vec() }
             fn decode32(b: &[u8]) -> (Self, u32) { <$t>::decode32(b) }
             fn split_i128(a: Self) -> (i128, i128) { a.split_vartime() }
             fn split_bytes(_a: Self) -> (Vec<u8>, Vec<u8>) { unreachable!() }
@@ -291,6 +294,7 @@ macro_rules! impl_pf_modint {
                 assert!(e32[<$t>::ENC_LEN..].iter().all(|&x| x == 0), "encode32 padding not zero");
                 e32[..<$t>::ENC_LEN].to_vec()
             }
+            fn encode_ct(a: Self) -> Vec<u8> { a.encode32()[..<$t>::ENC_LEN].to_vec() }
             fn decode32(b: &[u8]) -> (Self, u32) { <$t>::decode32(b) }
             fn split_i128(a: Self) -> (i128, i128) { a.split_vartime() }
             fn split_bytes(_a: Self) -> (Vec<u8>, Vec<u8>) { unreachable!() }
@@ -331,6 +335,7 @@ macro_rules! impl_pf_gf448_w64 {
             fn sqrt(a: Self) -> (Self, u32) { a.sqrt() }
             fn sqrt_ext(a: Self) -> (Self, u32) { a.sqrt_ext() }
             fn encode(a: Self) -> Vec<u8> { a.encode().to_vec() }
+            fn encode_ct(a: Self) -> Vec<u8> { a.encode().to_vec() }
             fn decode32(_b: &[u8]) -> (Self, u32) { unreachable!() }
         }
     };
@@ -371,6 +376,7 @@ macro_rules! impl_pf_secp_w64 {
                 assert!(e == a.encode32(), "encode != encode32");
                 e.to_vec()
             }
+            fn encode_ct(a: Self) -> Vec<u8> { a.encode().to_vec() }
             fn decode32(b: &[u8]) -> (Self, u32) { <$t>::decode32(b) }
         }
     };
@@ -403,6 +409,7 @@ macro_rules! impl_pf_gfgen {
             fn sqrt(a: Self) -> (Self, u32) { a.sqrt() }
             fn sqrt_ext(a: Self) -> (Self, u32) { a.sqrt_ext() }
             fn encode(a: Self) -> Vec<u8> { a.encode().to_vec() }
+            fn encode_ct(a: Self) -> Vec<u8> { a.encode().to_vec() }
             fn decode32(_b: &[u8]) -> (Self, u32) { unreachable!() }
             fn split_i128(_a: Self) -> (i128, i128) { unreachable!() }
             fn split_bytes(a: Self) -> (Vec<u8>, Vec<u8>) {
